@@ -24,14 +24,29 @@
 #include <math.h>
 #include <unistd.h>
 #include <fcntl.h>
+#include <sys/stat.h>
 
 /* ---------------------------------------------------------------- PRNG */
-typedef struct { uint64_t s[4]; } vc_rng;
+typedef struct { uint64_t s[4]; int fz; } vc_rng;
+#ifdef VERIF_FUZZ
+/* coverage-guided tier: the per-case generator is driven by the bytes libFuzzer proposes (the same structure-aware
+ * generators and the same oracles run, libFuzzer's coverage feedback chooses the decisions); when the input is
+ * used up the generator continues as a PRNG seeded from the input, so a case is a pure function of its bytes */
+static const unsigned char *vc_fz_data; static size_t vc_fz_len, vc_fz_pos;
+#endif
 static inline uint64_t vc_splitmix(uint64_t *x){ uint64_t z=(*x+=0x9E3779B97F4A7C15ULL); z=(z^(z>>30))*0xBF58476D1CE4E5B9ULL; z=(z^(z>>27))*0x94D049BB133111EBULL; return z^(z>>31); }
-static inline void vc_rng_seed(vc_rng *r, uint64_t seed){ uint64_t x=seed; for(int i=0;i<4;i++) r->s[i]=vc_splitmix(&x); }
+static inline void vc_rng_seed(vc_rng *r, uint64_t seed){ uint64_t x=seed; for(int i=0;i<4;i++) r->s[i]=vc_splitmix(&x); r->fz=0; }
 static inline uint64_t vc_rotl(uint64_t x,int k){ return (x<<k)|(x>>(64-k)); }
-static inline uint64_t vc_next(vc_rng *r){ uint64_t *s=r->s; uint64_t res=vc_rotl(s[1]*5,7)*9, t=s[1]<<17; s[2]^=s[0]; s[3]^=s[1]; s[1]^=s[2]; s[0]^=s[3]; s[2]^=t; s[3]=vc_rotl(s[3],45); return res; }
-static inline uint32_t vc_u32(vc_rng *r){ return (uint32_t)(vc_next(r)>>32); }
+static inline uint64_t vc_next(vc_rng *r){
+#ifdef VERIF_FUZZ
+  if(r->fz&&vc_fz_pos+8<=vc_fz_len){ uint64_t v; memcpy(&v,vc_fz_data+vc_fz_pos,8); vc_fz_pos+=8; return v; }
+#endif
+  uint64_t *s=r->s; uint64_t res=vc_rotl(s[1]*5,7)*9, t=s[1]<<17; s[2]^=s[0]; s[3]^=s[1]; s[1]^=s[2]; s[0]^=s[3]; s[2]^=t; s[3]=vc_rotl(s[3],45); return res; }
+static inline uint32_t vc_u32(vc_rng *r){
+#ifdef VERIF_FUZZ
+  if(r->fz&&vc_fz_pos+4<=vc_fz_len){ uint32_t v; memcpy(&v,vc_fz_data+vc_fz_pos,4); vc_fz_pos+=4; return v; }
+#endif
+  return (uint32_t)(vc_next(r)>>32); }
 /* uniform in [0,n) ; n>=1 */
 static inline uint32_t vc_below(vc_rng *r, uint32_t n){ return (uint32_t)(((uint64_t)vc_u32(r)*n)>>32); }
 static inline int vc_range(vc_rng *r, int lo, int hi){ return lo+(int)vc_below(r,(uint32_t)(hi-lo+1)); }
@@ -56,13 +71,21 @@ static int vc_argc; static char **vc_argv;
 static inline const char *vc_arg(const char *name, const char *def){ size_t l=strlen(name); for(int i=0;i<vc_argc;i++) if(!strncmp(vc_argv[i],name,l)&&vc_argv[i][l]=='=') return vc_argv[i]+l+1; return def; }
 static inline long vc_argl(const char *name, long def){ const char *s=vc_arg(name,NULL); return s?atol(s):def; }
 
+#ifdef VERIF_FUZZ
+static inline void vc_case_rng(vc_rng *r, uint64_t salt){ uint64_t h=vc_hash64(vc_hash64(0x5eed,vc_hash_bytes(vc_fz_data,vc_fz_len)),salt); h=vc_hash64(h,vc_hash_bytes(vc_mode,strlen(vc_mode))); vc_rng_seed(r,h); r->fz=1; }
+#else
 static inline void vc_case_rng(vc_rng *r, uint64_t salt){ uint64_t h=vc_hash64(vc_hash64(vc_hash64(0x5eed,vc_seed),(uint64_t)vc_case),salt); h=vc_hash64(h,vc_hash_bytes(vc_mode,strlen(vc_mode))); vc_rng_seed(r,h); }
+#endif
 
 static void vc_viol(const char *key, const char *fmt, ...){
   va_list ap; char buf[1500]; va_start(ap,fmt); vsnprintf(buf,sizeof buf,fmt,ap); va_end(ap);
   for(char *p=buf;*p;p++) if(*p=='\n') *p=' ';
   vc_nviol++;
+#ifdef VERIF_FUZZ
+  if(vc_nviol<=40) { printf("V %s %s:%llu:%ld:",key,vc_mode,(unsigned long long)vc_seed,vc_case); for(size_t i=0;i<vc_fz_len&&i<8192;i++) printf("%02x",vc_fz_data[i]); if(!vc_fz_len) printf("-"); printf(" %s\n",buf); fflush(stdout); }
+#else
   if(vc_nviol<=40) { printf("V %s %s:%llu:%ld %s\n",key,vc_mode,(unsigned long long)vc_seed,vc_case,buf); fflush(stdout); }
+#endif
 }
 
 /* counters / named observations: tiny open hash table keyed by string */
@@ -93,6 +116,42 @@ typedef struct { const char *name; void (*fn)(void); } vc_mode_t;
 extern int opus_verif_arch_cap __attribute__((weak));
 static void vc_apply_arch_cap(void){ const char *c=vc_arg("cap",NULL); if(!c) return; if(&opus_verif_arch_cap) opus_verif_arch_cap=atoi(c); else { fprintf(stderr,"hook H1 (opus_verif_arch_cap) is missing from this tree\n"); exit(3); } }
 
+static void vc_dump_results(long n){
+  printf("N %ld\n",n);
+  for(int i=0;i<VC_NT;i++) if(vc_tab[i].name[0]){ if(vc_tab[i].kind=='C') printf("C %s %ld\n",vc_tab[i].name,vc_tab[i].cnt); else if(vc_tab[i].kind=='D') printf("D %s %ld\n",vc_tab[i].name,vc_tab[i].cnt); else if(vc_tab[i].kind=='M') printf("M %s %.9g\n",vc_tab[i].name,vc_tab[i].mx); else printf("m %s %.9g\n",vc_tab[i].name,vc_tab[i].mn); }
+  int k=0; for(size_t i=0;i<vc_sig_cap;i++) if(vc_sigs[i]){ if(k%16==0) printf("%sS",k?"\n":""); printf(" %llx",(unsigned long long)vc_sigs[i]); k++; } if(k) printf("\n");
+  fflush(stdout);
+}
+#ifdef VERIF_FUZZ
+/* libFuzzer drives the mode function: `h <mode> <seed> <shard> <nshards> <total-runs> [k=v...]` runs total/nshards
+ * executions with libFuzzer seed derived from (seed, shard); `input=<hex>` replays one input.  The progress file
+ * holds the input being executed (hex), so a crash is replayable from the replay file alone. */
+extern int LLVMFuzzerRunDriver(int *argc,char ***argv,int (*cb)(const uint8_t *,size_t));
+static const vc_mode_t *vc_fz_mode; static long vc_fz_execs; static long vc_fz_base;
+static void vc_fz_progress(const uint8_t *d,size_t n){ if(vc_progress_fd<0) return; static char b[2*8192+200]; int o=snprintf(b,200,"%s:%llu:%ld:",vc_mode,(unsigned long long)vc_seed,vc_case); if(n>8192) n=8192; static const char hx[]="0123456789abcdef"; for(size_t i=0;i<n;i++){ b[o++]=hx[d[i]>>4]; b[o++]=hx[d[i]&15]; } if(n==0) b[o++]='-'; b[o++]='\n'; if(ftruncate(vc_progress_fd,0)<0){} if(pwrite(vc_progress_fd,b,o,0)<0){} }
+static int vc_fz_cb(const uint8_t *d,size_t n){ vc_fz_data=d; vc_fz_len=n; vc_fz_pos=0; vc_case=vc_fz_base+vc_fz_execs; vc_fz_execs++; vc_fz_progress(d,n); vc_fz_mode->fn(); vc_count("fuzz_executions",1); vc_count("fuzz_input_bytes_consumed",(long)(vc_fz_pos<n?vc_fz_pos:n)); return 0; }
+static void vc_fz_atexit(void){ vc_dump_results(vc_fz_execs); }
+static int vc_main(int argc,char **argv,const char *prop,const vc_mode_t *modes){
+  if(argc<6){ fprintf(stderr,"usage: %s <mode> <seed> <shard> <nshards> <total-runs> [k=v...]\n",argv[0]); return 3; }
+  vc_prop=prop; vc_mode=argv[1]; vc_seed=strtoull(argv[2],0,10); long shard=atol(argv[3]), nsh=atol(argv[4]), total=atol(argv[5]);
+  vc_argc=argc-6; vc_argv=argv+6; vc_verbose=getenv("VERIF_VERBOSE")!=NULL;
+  const char *pf=getenv("VERIF_PROGRESS"); if(pf) vc_progress_fd=open(pf,O_CREAT|O_WRONLY|O_TRUNC,0644);
+  const vc_mode_t *m=modes; while(m->name&&strcmp(m->name,vc_mode)) m++;
+  if(!m->name){ fprintf(stderr,"unknown mode %s\n",vc_mode); return 3; }
+  vc_apply_arch_cap(); vc_fz_mode=m; if(nsh<1) nsh=1;
+  const char *hexin=vc_arg("input",NULL);
+  if(hexin){ static uint8_t buf[8192]; size_t n=0; if(hexin[0]!='-') for(;hexin[2*n]&&hexin[2*n+1]&&n<sizeof buf;n++){ unsigned v; sscanf(hexin+2*n,"%2x",&v); buf[n]=(uint8_t)v; } uint8_t *ex=(uint8_t*)malloc(n?n:1); memcpy(ex,buf,n); vc_fz_cb(ex,n); free(ex); vc_dump_results(1); return (vc_verbose&&vc_nviol)?1:0; }
+  /* `shard` doubles as the restart offset verif.py passes after a crash (start index of the resumed shard): any value
+     gives a distinct libFuzzer seed */
+  long runs=total/nsh; if(runs<1) runs=1; vc_fz_base=shard*1000000000L;
+  /* seed corpus: a few byte strings of different lengths from the (seed, shard) PRNG */
+  char dir[64]; snprintf(dir,sizeof dir,"corpus.%ld",shard); mkdir(dir,0755); { vc_rng r; vc_rng_seed(&r,vc_hash64(vc_hash64(0xF022,vc_seed),(uint64_t)shard)); for(int i=0;i<24;i++){ char fn[96]; snprintf(fn,sizeof fn,"%s/seed%02d",dir,i); FILE *f=fopen(fn,"wb"); if(!f) continue; int len=i<4?i*8:(int)vc_below(&r,i<16?400:3000); for(int k=0;k<len;k++) fputc((int)(vc_next(&r)>>56),f); fclose(f); } }
+  char a_runs[40],a_seed[40],a_maxlen[40],a_art[80]; snprintf(a_runs,sizeof a_runs,"-runs=%ld",runs); snprintf(a_seed,sizeof a_seed,"-seed=%u",(unsigned)(vc_hash64(vc_hash64(0x11BF,vc_seed),(uint64_t)shard)%2147483647u)+1); snprintf(a_maxlen,sizeof a_maxlen,"-max_len=%ld",vc_argl("maxlen",4096)); snprintf(a_art,sizeof a_art,"-artifact_prefix=./artifact.%ld.",shard);
+  char *fargv[]={argv[0],a_runs,a_seed,a_maxlen,a_art,"-detect_leaks=0","-timeout=600","-rss_limit_mb=6000","-use_value_profile=1","-print_final_stats=1","-verbosity=1","-reduce_inputs=1",dir,NULL}; int fargc=13; char **fa=fargv;
+  atexit(vc_fz_atexit);
+  return LLVMFuzzerRunDriver(&fargc,&fa,vc_fz_cb);
+}
+#else
 static int vc_main(int argc,char **argv,const char *prop,const vc_mode_t *modes){
   if(argc<6){ fprintf(stderr,"usage: %s <mode> <seed> <start> <step> <count> [k=v...]\n",argv[0]); return 3; }
   vc_prop=prop; vc_mode=argv[1]; vc_seed=strtoull(argv[2],0,10); long start=atol(argv[3]), step=atol(argv[4]), count=atol(argv[5]);
@@ -102,13 +161,11 @@ static int vc_main(int argc,char **argv,const char *prop,const vc_mode_t *modes)
   if(!m->name){ fprintf(stderr,"unknown mode %s\n",vc_mode); return 3; }
   vc_apply_arch_cap(); if(step<1) step=1; long n=0;
   for(long i=start;i<count;i+=step){ vc_begin_case(i); m->fn(); n++; }
-  printf("N %ld\n",n);
-  for(int i=0;i<VC_NT;i++) if(vc_tab[i].name[0]){ if(vc_tab[i].kind=='C') printf("C %s %ld\n",vc_tab[i].name,vc_tab[i].cnt); else if(vc_tab[i].kind=='D') printf("D %s %ld\n",vc_tab[i].name,vc_tab[i].cnt); else if(vc_tab[i].kind=='M') printf("M %s %.9g\n",vc_tab[i].name,vc_tab[i].mx); else printf("m %s %.9g\n",vc_tab[i].name,vc_tab[i].mn); }
-  int k=0; for(size_t i=0;i<vc_sig_cap;i++) if(vc_sigs[i]){ if(k%16==0) printf("%sS",k?"\n":""); printf(" %llx",(unsigned long long)vc_sigs[i]); k++; } if(k) printf("\n");
-  fflush(stdout);
+  vc_dump_results(n);
   if(vc_verbose && vc_nviol) return 1;
   return 0;
 }
+#endif
 
 /* ---------------------------------------------------------------- guarded buffers
  * Layout: [64-byte canary][payload of exactly n bytes][64-byte canary]; the block is malloc'ed with the
